@@ -182,6 +182,20 @@ func (c *chaosShim) serve(w http.ResponseWriter, r *http.Request) {
 			http.Error(w, "chaos: fetch failure", 500)
 		case "fetch-404":
 			http.Error(w, "chaos: not found", 404)
+		case "fetch-nonhttp", "fetch-reset":
+			// transport-level failure of every fetch attempt: no (valid) HTTP reply at all
+			if hj, ok := w.(http.Hijacker); ok {
+				if conn, _, err := hj.Hijack(); err == nil {
+					if victimKind(cached.path) == "fetch-nonhttp" {
+						conn.Write([]byte("\x01\x02 definitely not http\r\n\r\n"))
+					} else if tc, ok := conn.(*net.TCPConn); ok {
+						tc.SetLinger(0)
+					}
+					conn.Close()
+					return
+				}
+			}
+			http.Error(w, "chaos", 500)
 		case "fetch-garbled":
 			w.Header().Set("X-Inverting-Proxy-Request-Start-Time", time.Now().Format(time.RFC3339Nano))
 			w.WriteHeader(200)
@@ -209,7 +223,7 @@ type fetchReply struct {
 func relayFaults(a *Args) {
 	res := a.Res
 	rng := hx.Rand("relay-faults")
-	kinds := []string{"be-close", "be-garbage", "be-reset", "be-short", "fetch-500", "fetch-404", "fetch-garbled",
+	kinds := []string{"be-close", "be-garbage", "be-reset", "be-short", "fetch-500", "fetch-404", "fetch-garbled", "fetch-nonhttp", "fetch-reset",
 		"post-reject", "post-garble", "post-reset", "shim-input", "backend-down"}
 	positions := []int{2}
 	if hx.Thorough() {
